@@ -131,3 +131,9 @@ package schema
 //@   in schema.callBackToMethodValue
 //@   min-sites 9
 //@   assert method-name-is-the-hook-asked-for: arg1 == cbType [C13]
+
+//@ site unique-constraints-named-after-the-column
+//@   match invoke Namer.UniqueName
+//@   in schema.(*Schema).ParseUniqueConstraints
+//@   min-sites 1
+//@   assert column-name: arg1 == field.DBName [C20]
